@@ -625,6 +625,18 @@ export class TypeGen {
           [1, () => A.tuple([A.ref("X"), A.ref(two ? "Y" : "X")])],
           // a conditional type over the naked parameter (distributes over a union argument)
           [f.conditional !== false ? 2 : 0, () => ({ k: "cond", check: A.ref("X"), ext: r.pick([A.kw("string"), A.kw("number"), A.union([A.kw("string"), A.kw("null")]), A.lit("a")]), a: r.pick([A.lit("yes"), A.arr(A.ref("X")), A.ref("X"), A.obj([A.prop("hit", A.ref("X"))])]), b: r.pick([A.lit("no"), A.kw("never"), A.kw("null"), A.obj([A.prop("miss", A.lit(true))])]) })],
+          // a distributive conditional whose branch instantiates ANOTHER distributive conditional with a
+          // named union - the one the outer type is instantiated with right after its declaration
+          [
+            f.conditional !== false && this.decls.some((d) => d.d === "alias" && d.params && d.params.length === 1 && d.t.k === "cond" && d.t.check.k === "ref" && d.t.check.name === d.params[0]) && this.namesOf(["strLits", "scalarUnion"]).length ? 3 : 0,
+            () => {
+              const inner = r.pick(this.decls.filter((d) => d.d === "alias" && d.params && d.params.length === 1 && d.t.k === "cond" && d.t.check.k === "ref" && d.t.check.name === d.params[0]));
+              const u = r.pick(this.namesOf(["strLits", "scalarUnion"]));
+              this.pendingInstance = { of: name, arg: u };
+              const hit = A.ref(inner.name, [A.ref(u)]);
+              return { k: "cond", check: A.ref("X"), ext: r.pick([A.kw("string"), A.union([A.kw("string"), A.kw("number")]), A.lit("a")]), a: r.chance(0.7) ? hit : A.obj([A.prop("inner", hit)]), b: r.chance(0.5) ? A.lit("no") : hit };
+            },
+          ],
           // a generic instantiated inside another one whose parameter has the same name, with an
           // argument that differs from the outer parameter
           [
@@ -674,7 +686,13 @@ export class TypeGen {
           return tryAdd({ d: "iface", name, params: ["X"], ext: [A.ref(parent.name, [arg])], props: own, index: null, doc });
         }
         if (r.chance(0.4) && body.k === "obj") return tryAdd({ d: "iface", name, params, ext: [], props: body.props, index: null, doc });
-        return tryAdd({ d: "alias", name, params, t: body, doc });
+        {
+          const ok = tryAdd({ d: "alias", name, params, t: body, doc });
+          const pi = this.pendingInstance;
+          this.pendingInstance = null;
+          if (ok && pi && pi.of === name && !two) tryAdd({ d: "alias", name: this.fresh("TO"), params: [], t: A.ref(name, [A.ref(pi.arg)]) });
+          return ok;
+        }
       }
       case "recursive": {
         const name = this.fresh("R");
